@@ -1,6 +1,7 @@
 use std::any::type_name;
 use std::borrow::{Borrow, BorrowMut};
 use std::ops::{Deref, DerefMut};
+use std::panic::{AssertUnwindSafe, catch_unwind, resume_unwind};
 use std::pin::Pin;
 use std::ptr::NonNull;
 use std::sync::{Arc, Mutex};
@@ -278,11 +279,21 @@ impl<T: ?Sized> Drop for PooledMut<T> {
 
         let mut pool = self.pool.lock().expect(NEVER_POISONED);
 
+        // AssertUnwindSafe: removal runs the object's destructor, which is user code and may
+        // panic. The pool completes its bookkeeping before the destructor runs, so we drop the
+        // guard cleanly (instead of poisoning the pool for every other handle) and re-throw
+        // the user's panic without tampering.
+        //
         // SAFETY: We are a managed unique handle, so we are the only one who is allowed to remove
         // the object from the pool - as long as we exist, the object exists in the pool. We keep
         // the pool alive for as long as any handle to it exists, so the pool must still exist.
-        unsafe {
+        let result = catch_unwind(AssertUnwindSafe(|| unsafe {
             pool.remove(inner);
+        }));
+        drop(pool);
+
+        if let Err(payload) = result {
+            resume_unwind(payload);
         }
     }
 }
